@@ -172,9 +172,13 @@ impl MainState {
     }
 
     pub(crate) async fn remove_user(&self, conn_state: &ConnState) {
-        if let Some(ref nick) = conn_state.user_state.nick {
-            let mut state = self.state.write().await;
-            state.remove_user(nick);
+        // remove user only if this connection registered it - nick of connection that
+        // is not registered can be used by other user.
+        if conn_state.user_state.authenticated {
+            if let Some(ref nick) = conn_state.user_state.nick {
+                let mut state = self.state.write().await;
+                state.remove_user(nick);
+            }
         }
     }
 
